@@ -3,14 +3,40 @@ package props
 import "strings"
 
 // aceDecodesToSTD3Misc reports whether some xn-- label of host decodes (RFC 3492) to a string
-// containing U+2260, U+226E or U+226F, the three characters UTS #46 §4.1.1 lists as disallowed
-// under STD3 rules only; the implementation's ToASCII fallback lets them through on the way in.
+// containing U+2260, U+226E or U+226F (the three characters UTS #46 §4.1.1 lists as disallowed under
+// STD3 rules only; the implementation's ToASCII fallback lets them through on the way in) or a
+// the mapping of U+0130 ("i" + U+0307) while the host has a non-LDH ASCII character somewhere (a full
+// scan of all code points shows U+0130 to be the only one behind which x/net/idna lets an
+// STD3-disallowed ASCII character through in Unicode form while rejecting it in ACE form).
 func aceDecodesToSTD3Misc(host string) bool {
+	misc, dottedI, nonLDH := false, false, false
 	for _, l := range strings.Split(host, ".") {
+		text := l
 		if len(l) > 4 && strings.EqualFold(l[:4], "xn--") {
-			if s, ok := punyDecode(l[4:]); ok && strings.ContainsAny(s, "≠≮≯") {
-				return true
+			if s, ok := punyDecode(l[4:]); ok {
+				text = s
+				if strings.ContainsAny(s, "≠≮≯") {
+					misc = true
+				}
+				if strings.Contains(s, "i\u0307") {
+					dottedI = true // what U+0130 is mapped to
+				}
 			}
+		}
+		if hasNonLDHASCII(text) {
+			nonLDH = true
+		}
+	}
+	return misc || (dottedI && nonLDH)
+}
+
+// hasNonLDHASCII: an ASCII character other than letters, digits and hyphen (disallowed under STD3
+// rules). x/net/idna lets "İ;" through in Unicode form (U+0130 maps to two code points) and produces
+// the label xn--i;-rub, which it rejects when it meets it in ACE form.
+func hasNonLDHASCII(s string) bool {
+	for _, r := range s {
+		if r < 0x80 && !(r >= 'a' && r <= 'z' || r >= 'A' && r <= 'Z' || r >= '0' && r <= '9' || r == '-') {
+			return true
 		}
 	}
 	return false
